@@ -245,7 +245,8 @@ def plan(pid, tier, rng, behaviours):
     for b in backends:
         for ks in dd.keysets_for(b):
             for vs in dd.valsets_for(b):
-                if pid != 'C03' and (ks.startswith('alias') or vs == 'srcinf' or (ks == 'long' and b.startswith('dir'))):
+                if pid != 'C03' and (ks.startswith('alias') or vs == 'srcinf' or (ks == 'long' and b.startswith('dir'))
+                                     or (ks == 'int' and b.split('+')[0] in ('file-json', 'dir-json'))):
                     continue          # C03's known findings (key aliasing, over-long keys, unreadable source text) are not persistence matters
                 combos.append((b, ks, vs))
     jobs = []
